@@ -635,6 +635,12 @@ func buildCases(c *vkit.Ctx) []Case {
 	// (3) queue overflow
 	add(Case{M: 4, Q: 8, MaxBuf: 1 << 40, Producers: 1, Gens: []Gen{{
 		Ops: append([]Op{{K: "S"}}, accepts(30, 10)...), Consumer: []string{"C"}, StopEarly: -1}, {Ops: []Op{{K: "W"}}, Consumer: []string{"C"}, StopEarly: -1}}})
+	// (3b) queue overflow under a finite size limit, consumer stalled throughout: once the queue (8) is full every further chunk
+	// is written and then dropped at the full queue, its file staying behind; those files still occupy the directory, so the
+	// size limit must stop the writing after 30 of them (seeded c03-s6 gave the bytes of such files back to the quota and the
+	// directory grew without bound - a detection that depended on the schedule with the generated histories alone)
+	add(Case{M: 4, Q: 8, MaxBuf: 3000, Producers: 1, Gens: []Gen{{
+		Ops: append(append([]Op{{K: "S"}}, accepts(90, 100)...), Op{K: "O"}), Consumer: []string{"C"}, StopEarly: -1}, {Ops: []Op{{K: "W"}}, Consumer: []string{"C"}, StopEarly: -1}}})
 	// (4) unusable directory
 	add(Case{M: 8, Q: 64, MaxBuf: 1 << 40, Producers: 1, BadDir: true, Gens: []Gen{{
 		Ops: append(accepts(6, 10), Op{K: "W"}), Consumer: []string{"C"}, StopEarly: -1}}})
@@ -781,7 +787,7 @@ func main() {
 		childMain(c)
 		c.Finish()
 	}
-	c.Rule("cases = 4 hand-written histories (hand-back under full quota, spill+recovery, queue overflow, unusable directory) + generated " +
+	c.Rule("cases = 5 hand-written histories (hand-back under full quota, spill+recovery, queue overflow, queue overflow under a finite size limit, unusable directory) + generated " +
 		"(memory window 4-16, queue 8-64, quota from below one chunk to unlimited, 1-4 generations of destroy+restart, ops accept/pace/stall/release/observe, " +
 		"consumer scripts confirm/hold/confirm-late/stop-early, sendAllAtEnd, 1 or 3 producers, perturbation at the buffer.* points); " +
 		"non-trivial = at least one spill and (a hand-back or a recovery or a quota hit); distinct = (case, per-generation outcome counts)")
